@@ -1073,6 +1073,13 @@ fn scenarios(tier: Tier, backend: Backend, server_db: bool) -> Vec<Scenario> {
             }
         }
     }
+    // one device renames the same folder twice between two syncs (a merged
+    // patch with several header events of one kind)
+    for y in [vec![], vec![Edit::CreateNote]] {
+        for o in &orders {
+            out.push(Scenario { edits: vec![vec![Edit::RenameDefaultOwn, Edit::RenameDefaultOwn], y.clone()], order: o.clone(), clock: clocks[0], client_backend: backend, server_db });
+        }
+    }
     // divergent file logs (both devices attach a file offline)
     for y in [vec![Edit::AttachFile], vec![], vec![Edit::CreateNote]] {
         for o in &orders {
@@ -1172,7 +1179,8 @@ fn all_scenarios(tier: Tier) -> Vec<Scenario> {
             // the device with the longer suffix syncs last (it is the
             // one that rewinds and replays)
             let long_last = sc.edits.iter().position(|e| e.len() == 2).map(|d| *sc.order.last().unwrap() == d).unwrap_or(false);
-            if is_force_merge_world(&sc) || (both && sc.clock != ClockPat::Tie && (l1 || long_last)) {
+            let twice = sc.edits.iter().any(|e| e.len() == 2 && e[0] == Edit::RenameDefaultOwn && e[1] == Edit::RenameDefaultOwn);
+            if is_force_merge_world(&sc) || twice || (both && sc.clock != ClockPat::Tie && (l1 || long_last)) {
                 v.push(sc);
             }
         }
